@@ -296,9 +296,22 @@ def rule_counter(ctx, res, f, cfg, site):
     res.check(gen_ok, 'R-C02-counter', q, 'candidate := name_for_id(counter)',
               '', 'candidate is not generated from the counter before it is '
               'advanced', fn.module.loc(alloc))
-    # other stores to the counter: only __init__ (= 0)
+    # other stores to the counter: only __init__ (= 0).  A private helper
+    # that nothing calls any more (its body was spliced into the loop by the
+    # normaliser, or it is simply dead) stores nothing at run time; any
+    # mention of its name -- a call, a bound-method reference -- keeps it.
+    mentioned = set()
+    for g in model.functions.values():
+        for n in model.own_nodes(g.node):
+            if isinstance(n, ast.Attribute):
+                mentioned.add(n.attr)
+            elif isinstance(n, ast.Name):
+                mentioned.add(n.id)
     others = []
     for g in model.functions.values():
+        if g.name.startswith('_') and not g.name.startswith('__') and \
+                g.name not in mentioned:
+            continue
         for n in model.own_nodes(g.node):
             if isinstance(n, (ast.Assign, ast.AugAssign)):
                 tg = n.targets if isinstance(n, ast.Assign) else [n.target]
